@@ -78,12 +78,23 @@ impl Definition {
 }
 
 fn span_contains(span: Span, tree: &ParseTree, path: &Path, pos: LineCol) -> bool {
+    span_contains_impl(span, tree, path, pos, true)
+}
+
+fn span_contains_impl(
+    span: Span,
+    tree: &ParseTree,
+    path: &Path,
+    pos: LineCol,
+    including_end: bool,
+) -> bool {
     let loc = tree.code_map.look_up_span(span);
     // (a span that covers several lines is not a rectangle: the columns only matter on its first and on its last line)
     let after_begin = pos.line > loc.begin.line
         || (pos.line == loc.begin.line && pos.column >= loc.begin.column);
-    let before_end =
-        pos.line < loc.end.line || (pos.line == loc.end.line && pos.column <= loc.end.column);
+    let before_end = pos.line < loc.end.line
+        || (pos.line == loc.end.line
+            && (pos.column < loc.end.column || (including_end && pos.column == loc.end.column)));
     loc.file.name() == path.to_str().unwrap() && after_begin && before_end
 }
 
@@ -191,7 +202,8 @@ impl Analysis {
         filter: F,
     ) -> Vec<(&DefinitionType, &Definition)> {
         let path = path.into();
-        self.definitions
+        let mut found: Vec<_> = self
+            .definitions
             .iter()
             .filter(|(ty, definition)| {
                 filter(ty)
@@ -204,7 +216,18 @@ impl Analysis {
                         DefinitionType::Symbol(_) => definition.contains(&self.tree, &path, pos),
                     }
             })
-            .collect()
+            .collect();
+        // A position between two tokens that touch each other ('}w:') is the end of one and the start of the other: the one
+        // that starts there comes first, and the order never depends on the hash map
+        found.sort_by_key(|(_, definition)| {
+            let starts_here = definition
+                .location
+                .iter()
+                .chain(definition.usages.iter())
+                .any(|l| span_contains_impl(l.span, &self.tree, &path, pos, false));
+            (!starts_here, definition.location.as_ref().map(|l| l.span))
+        });
+        found
     }
 
     pub fn look_up(&self, span: Span) -> SpanLoc {
